@@ -5,6 +5,15 @@
 //! Case line: `pool <TAB> N <TAB> script <TAB> panicking task ids <TAB> event log <TAB> summary`.
 //! Script letters: `S` start, `e` execute (returns), `p` execute (panics), `b` execute (waits on a barrier of
 //! N such tasks, then returns), `w` wait until every task submitted so far has run, `T` stop, `D` drop.
+//! `h` / `x` execute a HELD task: it blocks until the caller opens the gate (`o`: releases every held task submitted so
+//! far; the end of the script opens it for good), then returns (`h`) or panics (`x`) — a task that is still running when
+//! the pool is stopped, started again or dropped. `W` = `w` and, in addition, every panic that has begun has been
+//! recovered (the replacement worker is being spawned); a `W` that is not satisfied although nothing has moved for `BARRIER_WAIT` is reported as
+//! `settle=timeout`. `S` may follow `T` (restart, any number of times) or `S` (started twice); every start gives N new
+//! workers, all of which have to exit in the end. Barrier tasks form groups: a group is the `b`s between two letters
+//! that are no task letters. A task letter may carry a repeat count (`e1000` = 1000 × `e`).
+//! Scripts with more than `LOG_LIMIT` tasks run without the tracer's log (log field `-`); `runs=` is run-length encoded
+//! (`1x1000`) when there are more than 64 tasks.
 //! Event log tokens: see `tok` below and `Driver/C08.lean`.
 use crate::common::*;
 use humphrey::thread::pool::ThreadPool;
@@ -14,9 +23,14 @@ use std::sync::atomic::{AtomicBool, AtomicU32, AtomicU64, AtomicUsize, Ordering}
 use std::sync::{Arc, Mutex};
 use std::time::{Duration, Instant};
 
+// All waits are QUIESCENCE timeouts: what is waited for has not happened AND no thread of the pool has reported an event
+// (no task has written a token) for this long. A long script that is still moving is never cut off; a deadlock is seen
+// after the same 1-2 s whatever the size of the script.
 const WATCHDOG: Duration = Duration::from_millis(2000);
 const GRACE: Duration = Duration::from_millis(1500);
 const BARRIER_WAIT: Duration = Duration::from_millis(1200);
+/// above this many tasks the event log is not kept (the case line would be megabytes; the summary still judges the run)
+const LOG_LIMIT: usize = 5_000;
 
 struct Trace {
     log: Vec<String>,
@@ -27,6 +41,51 @@ struct Trace {
 
 static TRACE: Mutex<Option<Trace>> = Mutex::new(None);
 static EXITS: AtomicUsize = AtomicUsize::new(0);
+/// counts every pool event and every token a task writes
+static PROGRESS: AtomicU64 = AtomicU64::new(0);
+
+/// How long nothing has moved (as seen by the thread that owns this value).
+struct Quiet {
+    last: u64,
+    since: Instant,
+}
+
+impl Quiet {
+    fn new() -> Self {
+        Quiet { last: PROGRESS.load(Ordering::SeqCst), since: Instant::now() }
+    }
+    fn quiet_for(&mut self) -> Duration {
+        let p = PROGRESS.load(Ordering::SeqCst);
+        if p != self.last {
+            self.last = p;
+            self.since = Instant::now();
+        }
+        self.since.elapsed()
+    }
+}
+/// tasks that are about to panic / replacements the recovery threads are about to spawn (for `W`)
+static PANICS_BEGUN: AtomicUsize = AtomicUsize::new(0);
+static RESPAWNS: AtomicUsize = AtomicUsize::new(0);
+/// Longest time (µs) by which the heartbeat thread overslept since the current script began: how long this process was
+/// kept off the CPU by the rest of the machine. A run that looks wedged while the process was starved says nothing.
+static MAX_STALL_US: AtomicU64 = AtomicU64::new(0);
+/// ... and the sum of all such delays above 1 ms
+static SUM_STALL_US: AtomicU64 = AtomicU64::new(0);
+static HEARTBEAT: std::sync::Once = std::sync::Once::new();
+
+fn start_heartbeat() {
+    HEARTBEAT.call_once(|| {
+        let _ = std::thread::Builder::new().name("heartbeat".into()).spawn(|| loop {
+            let t0 = Instant::now();
+            std::thread::sleep(Duration::from_millis(2));
+            let over = t0.elapsed().saturating_sub(Duration::from_millis(2)).as_micros() as u64;
+            MAX_STALL_US.fetch_max(over, Ordering::SeqCst);
+            if over > 1000 {
+                SUM_STALL_US.fetch_add(over, Ordering::SeqCst);
+            }
+        });
+    });
+}
 
 fn tok(ev: PoolEvent) -> String {
     use PoolEvent::*;
@@ -60,6 +119,7 @@ fn tok(ev: PoolEvent) -> String {
 
 /// Append a token to the global log; returns the perturbation hint.
 fn record(t: String) -> u32 {
+    PROGRESS.fetch_add(1, Ordering::SeqCst);
     let mut g = TRACE.lock().unwrap_or_else(|e| e.into_inner());
     match g.as_mut() {
         None => 0,
@@ -95,9 +155,70 @@ fn worker_id() -> String {
 struct Shared {
     counters: Vec<AtomicU32>,
     done: Vec<AtomicBool>,
-    arrived: AtomicUsize,
+    /// one arrival counter per barrier group
+    arrived: Vec<AtomicUsize>,
     barrier_timeout: AtomicBool,
+    settle_timeout: AtomicBool,
+    /// gate epoch: a held task submitted at epoch g runs on once the gate is above g
+    gate: AtomicUsize,
     n: usize,
+}
+
+pub fn is_task(c: char) -> bool {
+    matches!(c, 'e' | 'p' | 'q' | 'r' | 's' | 'b' | 'h' | 'x')
+}
+
+pub fn is_panicking(c: char) -> bool {
+    matches!(c, 'p' | 'q' | 'r' | 's' | 'x')
+}
+
+/// The script with the repeat counts written out.
+pub fn expand(script: &str) -> Vec<char> {
+    let mut v: Vec<char> = Vec::new();
+    let cs: Vec<char> = script.chars().collect();
+    let mut i = 0;
+    while i < cs.len() {
+        let c = cs[i];
+        i += 1;
+        let mut k = 0usize;
+        let mut digits = false;
+        while i < cs.len() && cs[i].is_ascii_digit() {
+            k = k.saturating_mul(10).saturating_add(cs[i] as usize - '0' as usize);
+            digits = true;
+            i += 1;
+        }
+        if c.is_ascii_digit() {
+            continue;
+        }
+        let k = if digits && is_task(c) { k } else { 1 };
+        for _ in 0..k {
+            v.push(c);
+        }
+    }
+    v
+}
+
+/// `letter` or `letter<count>`
+fn rep(c: char, k: usize) -> String {
+    match k {
+        0 => String::new(),
+        1 => c.to_string(),
+        _ => format!("{}{}", c, k),
+    }
+}
+
+fn rle(xs: &[u32]) -> String {
+    let mut out: Vec<String> = Vec::new();
+    let mut i = 0;
+    while i < xs.len() {
+        let mut j = i;
+        while j < xs.len() && xs[j] == xs[i] {
+            j += 1;
+        }
+        out.push(format!("{}x{}", xs[i], j - i));
+        i = j;
+    }
+    out.join(",")
 }
 
 pub struct RunResult {
@@ -109,14 +230,12 @@ pub struct RunResult {
 fn panicking_ids(script: &str) -> String {
     let mut k = 0;
     let mut v = Vec::new();
-    for c in script.chars() {
-        match c {
-            'e' | 'b' => k += 1,
-            'p' | 'q' | 'r' | 's' => {
-                v.push(k.to_string());
-                k += 1
-            }
-            _ => {}
+    for c in expand(script) {
+        if is_panicking(c) {
+            v.push(k.to_string());
+        }
+        if is_task(c) {
+            k += 1;
         }
     }
     v.join(",")
@@ -128,42 +247,69 @@ pub fn run_script(n: usize, script: &str, seed: u64) -> RunResult {
     // panics with a message go through the process-wide panic hook; start every script from the quiet one (a pool with a
     // monitor subscribed to ThreadPoolPanic installs its own)
     std::panic::set_hook(Box::new(|_| {}));
-    let ntasks = script.chars().filter(|c| matches!(c, 'e' | 'p' | 'q' | 'r' | 's' | 'b')).count();
-    let started_in_script = script.contains('S');
-    let has_barrier = script.contains('b');
+    let ops = expand(script);
+    let ntasks = ops.iter().filter(|c| is_task(**c)).count();
+    let starts = ops.iter().filter(|c| **c == 'S').count();
+    let has_barrier = ops.contains(&'b');
+    let has_settle = ops.contains(&'W');
+    let ngroups = ops.iter().filter(|c| !is_task(**c)).count() + 1;
+    let keep_log = ntasks <= LOG_LIMIT;
+    // the one absolute limit (a pool that keeps moving and never gets anywhere)
+    let hard_limit = Duration::from_millis(30_000 + (100 * ntasks as u64).min(600_000));
     let mut rng = Rng::new(seed);
     let intensity = rng.below(3);
     let spin_mask = rng.next();
-    *TRACE.lock().unwrap_or_else(|e| e.into_inner()) = Some(Trace { log: Vec::new(), rng, intensity });
+    *TRACE.lock().unwrap_or_else(|e| e.into_inner()) = if keep_log { Some(Trace { log: Vec::new(), rng, intensity }) } else { None };
+    start_heartbeat();
+    MAX_STALL_US.store(0, Ordering::SeqCst);
+    SUM_STALL_US.store(0, Ordering::SeqCst);
     EXITS.store(0, Ordering::SeqCst);
+    PANICS_BEGUN.store(0, Ordering::SeqCst);
+    RESPAWNS.store(0, Ordering::SeqCst);
     install_sink(Box::new(|ev| {
         // count the exit only after its token is in the log: the main thread snapshots the log once it has
         // seen all exits
         let hint = record(tok(ev));
-        if let PoolEvent::WorkerExit(_) = ev {
-            EXITS.fetch_add(1, Ordering::SeqCst);
+        match ev {
+            PoolEvent::WorkerExit(_) => {
+                EXITS.fetch_add(1, Ordering::SeqCst);
+            }
+            PoolEvent::RecoveryRespawn(_) => {
+                RESPAWNS.fetch_add(1, Ordering::SeqCst);
+            }
+            _ => {}
         }
         hint
     }));
     let shared = Arc::new(Shared {
         counters: (0..ntasks).map(|_| AtomicU32::new(0)).collect(),
         done: (0..ntasks).map(|_| AtomicBool::new(false)).collect(),
-        arrived: AtomicUsize::new(0),
+        arrived: (0..ngroups).map(|_| AtomicUsize::new(0)).collect(),
         barrier_timeout: AtomicBool::new(false),
+        settle_timeout: AtomicBool::new(false),
+        gate: AtomicUsize::new(0),
         n,
     });
     let stop_panicked = Arc::new(AtomicBool::new(false));
     let (tx, rx) = std::sync::mpsc::channel::<()>();
-    let script_owned: Vec<char> = script.chars().collect();
     let sh = shared.clone();
     let sp = stop_panicked.clone();
+    let hold_max = hard_limit + Duration::from_secs(20);
     let caller = std::thread::Builder::new()
         .name("caller".into())
         .spawn(move || {
             let mut pool = Some(ThreadPool::new(n));
             let mut monitor_rx = Vec::new(); // receivers of registered monitors stay alive for the whole script
             let mut k = 0usize;
-            for c in script_owned {
+            let mut group = 0usize;
+            let mut epoch = 0usize;
+            // held tasks: id -> gate epoch at submission; `undone` = tasks not yet seen to be done
+            let mut held: std::collections::HashMap<usize, usize> = std::collections::HashMap::new();
+            let mut undone: Vec<usize> = Vec::new();
+            for c in ops {
+                if !is_task(c) {
+                    group += 1;
+                }
                 match c {
                     'S' => pool.as_mut().unwrap().start(),
                     // `M`: a monitor subscribed to the pool's panic events (changes how the pool observes panics: it
@@ -179,23 +325,35 @@ pub fn run_script(n: usize, script: &str, seed: u64) -> RunResult {
                         pool.as_mut().unwrap().register_monitor(cfg);
                         monitor_rx.push(mrx);
                     }
-                    'e' | 'p' | 'q' | 'r' | 's' | 'b' => {
+                    'e' | 'p' | 'q' | 'r' | 's' | 'b' | 'h' | 'x' => {
                         let id = k;
                         k += 1;
                         let sh = sh.clone();
-                        let spin = (spin_mask >> (id % 60)) & 3;
+                        // (no extra delays in the very long scripts that run without the log)
+                        let spin = if keep_log { (spin_mask >> (id % 60)) & 3 } else { 0 };
+                        let my_group = group;
+                        let my_epoch = epoch;
+                        if matches!(c, 'h' | 'x') {
+                            held.insert(id, epoch);
+                        }
+                        undone.push(id);
                         pool.as_ref().unwrap().execute(move || {
                             let w = worker_id();
                             sh.counters[id].fetch_add(1, Ordering::SeqCst);
                             perturb(record(format!("b{}.{}", id, w)));
                             if c == 'b' {
-                                sh.arrived.fetch_add(1, Ordering::SeqCst);
-                                let t0 = Instant::now();
-                                while sh.arrived.load(Ordering::SeqCst) < sh.n {
-                                    if t0.elapsed() > BARRIER_WAIT {
+                                sh.arrived[my_group].fetch_add(1, Ordering::SeqCst);
+                                let mut q = Quiet::new();
+                                while sh.arrived[my_group].load(Ordering::SeqCst) < sh.n {
+                                    if q.quiet_for() > BARRIER_WAIT {
                                         sh.barrier_timeout.store(true, Ordering::SeqCst);
                                         break;
                                     }
+                                    std::thread::sleep(Duration::from_micros(50));
+                                }
+                            } else if matches!(c, 'h' | 'x') {
+                                let t0 = Instant::now();
+                                while sh.gate.load(Ordering::SeqCst) <= my_epoch && t0.elapsed() < hold_max {
                                     std::thread::sleep(Duration::from_micros(50));
                                 }
                             } else if spin == 3 {
@@ -203,12 +361,13 @@ pub fn run_script(n: usize, script: &str, seed: u64) -> RunResult {
                             } else if spin == 2 {
                                 std::thread::yield_now();
                             }
-                            if matches!(c, 'p' | 'q' | 'r' | 's') {
+                            if is_panicking(c) {
                                 perturb(record(format!("c{}.{}", id, w)));
+                                PANICS_BEGUN.fetch_add(1, Ordering::SeqCst);
                                 sh.done[id].store(true, Ordering::SeqCst);
                                 match c {
                                     // quiet panic: no panic hook, still `thread::panicking()` while unwinding
-                                    'p' => std::panic::resume_unwind(Box::new(())),
+                                    'p' | 'x' => std::panic::resume_unwind(Box::new(())),
                                     // the kinds of payload a task can panic with: literal, formatted, not a string at all
                                     'q' => panic!("task failed"),
                                     'r' => panic!("task {} failed", id),
@@ -219,9 +378,27 @@ pub fn run_script(n: usize, script: &str, seed: u64) -> RunResult {
                             sh.done[id].store(true, Ordering::SeqCst);
                         });
                     }
-                    'w' => {
-                        let t0 = Instant::now();
-                        while !(0..k).all(|i| sh.done[i].load(Ordering::SeqCst)) && t0.elapsed() < BARRIER_WAIT {
+                    // open the gate: every held task submitted so far goes on
+                    'o' => {
+                        epoch += 1;
+                        sh.gate.store(epoch, Ordering::SeqCst);
+                    }
+                    'w' | 'W' => {
+                        let mut q = Quiet::new();
+                        loop {
+                            undone.retain(|i| !sh.done[*i].load(Ordering::SeqCst));
+                            // held tasks whose gate is still shut are not waited for
+                            let tasks_ok = undone.iter().all(|i| held.get(i).map(|g| *g >= epoch).unwrap_or(false));
+                            let rec_ok = c == 'w' || RESPAWNS.load(Ordering::SeqCst) >= PANICS_BEGUN.load(Ordering::SeqCst);
+                            if tasks_ok && rec_ok {
+                                break;
+                            }
+                            if q.quiet_for() > BARRIER_WAIT {
+                                if c == 'W' {
+                                    sh.settle_timeout.store(true, Ordering::SeqCst);
+                                }
+                                break;
+                            }
                             std::thread::sleep(Duration::from_micros(50));
                         }
                     }
@@ -236,16 +413,40 @@ pub fn run_script(n: usize, script: &str, seed: u64) -> RunResult {
                 }
             }
             drop(pool.take());
+            sh.gate.store(usize::MAX, Ordering::SeqCst);
             let _ = tx.send(());
         })
         .expect("spawn caller");
-    let returned = rx.recv_timeout(WATCHDOG).is_ok();
-    let expect_exits = if started_in_script { n } else { 0 };
+    let t_begin = Instant::now();
+    let returned = {
+        let mut q = Quiet::new();
+        loop {
+            match rx.recv_timeout(Duration::from_millis(10)) {
+                Ok(()) => break true,
+                Err(std::sync::mpsc::RecvTimeoutError::Disconnected) => break false,
+                Err(std::sync::mpsc::RecvTimeoutError::Timeout) => {
+                    if q.quiet_for() > WATCHDOG || t_begin.elapsed() > hard_limit {
+                        break false;
+                    }
+                }
+            }
+        }
+    };
+    if !returned {
+        if let Ok(path) = std::env::var("HV_C08_DIAG") {
+            if let Ok(mut f) = std::fs::OpenOptions::new().create(true).append(true).open(path) {
+                let _ = writeln!(f, "{} {} waited={:?} caller_finished={} max_stall_us={}", n, script, t_begin.elapsed(), caller.is_finished(), MAX_STALL_US.load(Ordering::SeqCst));
+            }
+        }
+    }
+    // whatever happened to the caller, no held task stays behind
+    shared.gate.store(usize::MAX, Ordering::SeqCst);
+    let expect_exits = n * starts;
     let mut clean = returned;
     if returned {
         let _ = caller.join();
-        let t0 = Instant::now();
-        while EXITS.load(Ordering::SeqCst) < expect_exits && t0.elapsed() < GRACE {
+        let mut q = Quiet::new();
+        while EXITS.load(Ordering::SeqCst) < expect_exits && q.quiet_for() < GRACE && t_begin.elapsed() < hard_limit {
             std::thread::sleep(Duration::from_micros(100));
         }
         if EXITS.load(Ordering::SeqCst) != expect_exits {
@@ -256,7 +457,7 @@ pub fn run_script(n: usize, script: &str, seed: u64) -> RunResult {
     }
     let log = {
         let mut g = TRACE.lock().unwrap_or_else(|e| e.into_inner());
-        let l = g.as_ref().map(|t| t.log.join(" ")).unwrap_or_default();
+        let l = if keep_log { g.as_ref().map(|t| t.log.join(" ")).unwrap_or_default() } else { "-".to_string() };
         if clean {
             *g = None;
         }
@@ -265,7 +466,8 @@ pub fn run_script(n: usize, script: &str, seed: u64) -> RunResult {
     let summary = if !returned {
         "WEDGED".to_string()
     } else {
-        let runs: Vec<String> = shared.counters.iter().map(|c| c.load(Ordering::SeqCst).to_string()).collect();
+        let runs: Vec<u32> = shared.counters.iter().map(|c| c.load(Ordering::SeqCst)).collect();
+        let runs = if ntasks > 64 { rle(&runs) } else { runs.iter().map(|c| c.to_string()).collect::<Vec<_>>().join(",") };
         let barrier = if !has_barrier {
             "na"
         } else if shared.barrier_timeout.load(Ordering::SeqCst) {
@@ -273,16 +475,31 @@ pub fn run_script(n: usize, script: &str, seed: u64) -> RunResult {
         } else {
             "ok"
         };
-        format!(
+        let mut s = format!(
             "runs={};exited={};caller=returned;barrier={};stoppanic={}",
-            runs.join(","),
+            runs,
             EXITS.load(Ordering::SeqCst),
             barrier,
             if stop_panicked.load(Ordering::SeqCst) { 1 } else { 0 }
-        )
+        );
+        if has_settle {
+            s += if shared.settle_timeout.load(Ordering::SeqCst) { ";settle=timeout" } else { ";settle=ok" };
+        }
+        s
     };
     if summary.contains("timeout") {
         clean = false;
+    }
+    // A run that looks wedged or late says nothing when the machine kept this process off the CPU meanwhile (the
+    // heartbeat thread, which only sleeps, was delayed by more than 250 ms at once or by more than a quarter of the time
+    // the run took): the parent runs the script again later, on its own.
+    if !clean {
+        std::thread::sleep(Duration::from_millis(20));
+        let max = MAX_STALL_US.load(Ordering::SeqCst);
+        let sum = SUM_STALL_US.load(Ordering::SeqCst);
+        if max > 250_000 || sum as u128 * 4 > t_begin.elapsed().as_micros() {
+            return RunResult { log, summary: "STARVED".into(), clean: false };
+        }
     }
     RunResult { log, summary, clean }
 }
@@ -325,6 +542,8 @@ fn run_batch(jobs: &[(usize, String, u64)], wedges: &AtomicU64, max_wedges: u64)
         if wedges.load(Ordering::SeqCst) >= max_wedges {
             break;
         }
+        #[allow(unused_assignments)]
+        let mut given = 0usize;
         let mut ch = std::process::Command::new(&exe)
             .arg("__c08child")
             .stdin(std::process::Stdio::piped())
@@ -335,10 +554,19 @@ fn run_batch(jobs: &[(usize, String, u64)], wedges: &AtomicU64, max_wedges: u64)
         {
             let mut si = ch.stdin.take().unwrap();
             let mut text = String::new();
-            // at most 400 scripts per child: their lines fit into the pipe buffer, so writing all of them
+            // at most 400 scripts and 32 KiB per child: their lines fit into the pipe buffer, so writing all of them
             // before reading any answer cannot block
+            given = 0;
+            let mut starts = 0usize;
             for (n, s, seed) in &jobs[next..(next + 400).min(jobs.len())] {
-                text += &format!("{} {} {}\n", n, s, seed);
+                let line = format!("{} {} {}\n", n, s, seed);
+                // every start leaves a (detached, immortal) recovery thread behind in the child
+                starts += s.matches('S').count();
+                if given > 0 && (text.len() + line.len() > 32 * 1024 || starts > 2000) {
+                    break;
+                }
+                text += &line;
+                given += 1;
             }
             // the child may exit before it has read everything
             let _ = si.write_all(text.as_bytes());
@@ -361,8 +589,7 @@ fn run_batch(jobs: &[(usize, String, u64)], wedges: &AtomicU64, max_wedges: u64)
             got += 1;
         }
         let _ = ch.wait();
-        let given = (next + 400).min(jobs.len()) - next;
-        if got > 0 && got < given && res.last().map(|r| r.3 != "WEDGED").unwrap_or(false) {
+        if got > 0 && got < given && res.last().map(|r| r.3 != "WEDGED" && r.3 != "STARVED").unwrap_or(false) {
             // the child ended early: its last run left threads behind (workers that never exit, tasks never
             // run). Such runs cost a grace period each, so they count towards the early stop like wedges do.
             wedges.fetch_add(1, Ordering::SeqCst);
@@ -378,13 +605,36 @@ fn run_batch(jobs: &[(usize, String, u64)], wedges: &AtomicU64, max_wedges: u64)
     res
 }
 
+/// A verdict that rests on time: the caller is not back, a wait was given up, not every worker has exited, no answer.
+fn suspicious(n: usize, script: &str, summary: &str) -> bool {
+    if summary == "WEDGED" || summary == "STARVED" || summary == "CHILD-DIED" || summary.contains("timeout") {
+        return true;
+    }
+    let starts = script.matches('S').count();
+    !summary.contains(&format!(";exited={};", n * starts))
+}
+
+/// One script in a child of its own; a run during which the machine starved the child is repeated (a few times).
+fn run_alone(n: usize, script: &str, seed: u64) -> Option<(usize, String, String, String)> {
+    for attempt in 0..4u64 {
+        let w = AtomicU64::new(0);
+        let r = run_batch(&[(n, script.to_string(), seed + attempt)], &w, 1);
+        match r.into_iter().next() {
+            Some(x) if x.3 == "STARVED" => std::thread::sleep(Duration::from_millis(300 * (attempt + 1))),
+            other => return other,
+        }
+    }
+    None
+}
+
 pub fn exec(f: &[String]) -> Option<String> {
     match (f[0].as_str(), f.len()) {
         ("pool", 5) => {
             let n: usize = f[1].parse().ok()?;
-            let w = AtomicU64::new(0);
-            let r = run_batch(&[(n, f[2].clone(), 1)], &w, 1);
-            r.first().map(|x| x.3.clone())
+            // the event log is a field of the case, but it belongs to the run that produced it: a replay carries the log of
+            // ITS run behind the summary, and the driver judges that one (`|relog=`)
+            let r = run_alone(n, &f[2], 1);
+            r.map(|x| format!("{}|relog={}", x.3, x.2))
         }
         _ => None,
     }
@@ -460,8 +710,271 @@ fn scripts(thorough: bool, seed: u64) -> Vec<(usize, String, u64)> {
         s.push('D');
         v.push((n, s));
     }
+    restart_scripts(&mut v, thorough, &mut rng);
+    large_scripts(&mut v, thorough);
+    // the long scripts sit at the end of the list: deal the list out so that every parallel batch gets its share
+    for i in (1..v.len()).rev() {
+        let j = rng.below(i as u64 + 1) as usize;
+        v.swap(i, j);
+    }
     let mut rng = Rng::new(seed);
     v.into_iter().map(|(n, s)| (n, s, rng.next())).collect()
+}
+
+/// Scripts in which the pool is started more than once: `... T S ...` (restart), `... S S ...` (started twice without a
+/// stop) and `... T T ...`; tasks finished, queued or still running (held) when the pool is stopped / started again /
+/// dropped; panics before, across (held task that panics after the next start) and after the restart; barrier groups of
+/// N in the later runs (N usable workers THERE, whatever the earlier runs' threads do); with and without a final stop.
+fn restart_scripts(v: &mut Vec<(usize, String)>, thorough: bool, rng: &mut Rng) {
+    let small: Vec<String> = {
+        let mut b = vec![String::new()];
+        for m in 1..=2 {
+            for mask in 0..(1u32 << m) {
+                b.push((0..m).map(|i| if mask >> i & 1 == 1 { 'p' } else { 'e' }).collect());
+            }
+        }
+        b
+    };
+    // R1: one restart, every pair of small bodies, first run settled or not, with / without a final stop
+    for n in 1..=3usize {
+        for a in &small {
+            for b in &small {
+                for settle in ["", "w", "W"] {
+                    if a.is_empty() && !settle.is_empty() {
+                        continue;
+                    }
+                    for end in ["D", "TD"] {
+                        v.push((n, format!("S{}{}TS{}{}", a, settle, b, end)));
+                    }
+                }
+            }
+        }
+    }
+    // R2: tasks of the first run still running (held) or queued behind them across the restart
+    for n in 1..=3usize {
+        let bn = rep('b', n);
+        for first in ["h", "x", "hh", "xx", "ex", "xe", "he", "hee", "xee", "hx", "px", "xp"] {
+            for restart in ["TS", "S", "TTS"] {
+                // (a) released right after the restart, everything settled, then the second run works
+                for b in ["".to_string(), "e".into(), "p".into(), format!("pW{}", bn), bn.clone(), format!("ppW{}W", bn)] {
+                    for end in ["D", "TD", "WD", "WTD"] {
+                        v.push((n, format!("S{}{}oW{}{}", first, restart, b, end)));
+                    }
+                }
+                // (b) the second run works while the old tasks are still held, then they are released
+                for b in ["e".to_string(), "p".into(), "ee".into(), bn.clone(), format!("p{}", bn)] {
+                    for end in ["D", "TD", "WD", "WTD"] {
+                        v.push((n, format!("S{}{}{}oW{}", first, restart, b, end)));
+                    }
+                    // (c) ... or only after the pool has been dropped (the end of the script opens the gate)
+                    for end in ["D", "TD"] {
+                        v.push((n, format!("S{}{}{}{}", first, restart, b, end)));
+                    }
+                }
+            }
+        }
+    }
+    // R3: several restarts with the same kind of run each time
+    let mut counts = vec![2usize, 3, 4, 5, 8, 10, 30, 100];
+    if thorough {
+        counts.extend([300, 1000]);
+    }
+    for n in 1..=3usize {
+        let bn = rep('b', n);
+        for &r in &counts {
+            let mut bodies: Vec<(String, String)> = vec![
+                ("".into(), "T".into()),
+                ("e".into(), "T".into()),
+                ("p".into(), "T".into()),
+                ("ep".into(), "T".into()),
+                ("pe".into(), "wT".into()),
+                (bn.clone(), "T".into()),
+                (format!("pW{}", bn), "T".into()),
+                ("e".into(), "".into()), // started again without a stop
+                ("p".into(), "TT".into()),
+            ];
+            if r > 10 {
+                bodies.truncate(4);
+            }
+            for (body, stop) in &bodies {
+                let run = format!("S{}{}", body, stop);
+                v.push((n, format!("{}D", run.repeat(r))));
+                v.push((n, format!("{}S{}D", run.repeat(r - 1), body)));
+            }
+            // a task of every run panics only after the next run has been started
+            v.push((n, format!("SxT{}SoWD", "SoWxT".repeat(r - 1))));
+            v.push((n, format!("SxT{}S{}oW{}D", "SoWxT".repeat(r - 1), bn, bn)));
+            // ... or all of them at the very end
+            v.push((n, format!("{}D", "SxT".repeat(r))));
+            v.push((n, format!("{}S{}oWpW{}D", "ShxT".repeat(r), bn, bn)));
+        }
+    }
+    // R4: random lifecycle scripts with 1..6 runs
+    let extra = if thorough { 60_000 } else { 4_000 };
+    for _ in 0..extra {
+        let n = rng.range(1, 4) as usize;
+        let runs = if rng.chance(1, 8) { rng.range(4, 6) } else { rng.range(1, 3) } as usize;
+        let mut s = String::new();
+        if rng.chance(1, 10) {
+            s.push(*rng.pick(&['M', 'm']));
+        }
+        // held tasks whose gate is shut: of the current run / of any run
+        let mut held_here = 0usize;
+        let mut held_any = 0usize;
+        for run in 0..runs {
+            s.push('S');
+            held_here = 0;
+            let segs = rng.range(0, 3);
+            for _ in 0..segs {
+                match rng.below(8) {
+                    // a few quick tasks
+                    0..=2 => {
+                        for _ in 0..rng.range(1, 3) {
+                            s.push(if rng.chance(2, 5) { *rng.pick(&['p', 'p', 'q', 'r', 's']) } else { 'e' });
+                        }
+                    }
+                    // held tasks
+                    3 | 4 => {
+                        for _ in 0..rng.range(1, 2) {
+                            s.push(if rng.chance(1, 2) { 'x' } else { 'h' });
+                            held_here += 1;
+                            held_any += 1;
+                        }
+                    }
+                    // release
+                    5 => {
+                        if held_any > 0 {
+                            s.push('o');
+                            held_here = 0;
+                            held_any = 0;
+                        }
+                    }
+                    // a barrier group of N: needs every worker of this run
+                    6 => {
+                        if held_here > 0 {
+                            s.push('o');
+                            held_here = 0;
+                            held_any = 0;
+                        }
+                        if held_any == 0 && rng.chance(1, 2) {
+                            s.push('W');
+                        }
+                        let mut group: Vec<char> = vec!['b'; n];
+                        for _ in 0..rng.below(3) {
+                            let at = rng.below(group.len() as u64 + 1) as usize;
+                            group.insert(at, if rng.chance(1, 2) { 'p' } else { 'e' });
+                        }
+                        s.extend(group);
+                    }
+                    // settle (never while a task is held: tasks queued behind it cannot run)
+                    _ => {
+                        if held_any == 0 {
+                            s.push(if rng.chance(1, 2) { 'W' } else { 'w' });
+                        }
+                    }
+                }
+            }
+            let last = run + 1 == runs;
+            if !last {
+                match rng.below(10) {
+                    0 => {}                  // started again without a stop
+                    1 => s.push_str("TT"),
+                    2 => {
+                        if held_any == 0 {
+                            s.push('w');
+                        }
+                        s.push('T');
+                    }
+                    _ => s.push('T'),
+                }
+            } else {
+                if rng.chance(3, 5) {
+                    s.push('T');
+                }
+                if held_any > 0 && rng.chance(1, 2) {
+                    s.push('o');
+                    held_any = 0;
+                }
+                if held_any == 0 && rng.chance(1, 3) {
+                    s.push(if rng.chance(1, 2) { 'W' } else { 'w' });
+                }
+                s.push('D');
+            }
+        }
+        let _ = held_here;
+        v.push((n, s));
+    }
+}
+
+/// Scripts with MANY tasks, panics, queued tasks: counts around powers of two and round numbers, a few very large ones.
+fn large_scripts(v: &mut Vec<(usize, String)>, thorough: bool) {
+    // every worker held and c tasks queued behind them (a bounded queue would block the caller): small c as well
+    let mut small: Vec<usize> = (1..=20).collect();
+    small.extend([31, 32, 33, 63, 64, 65]);
+    for n in 1..=4usize {
+        for &c in &small {
+            v.push((n, format!("S{}{}oWD", rep('h', n), rep('e', c))));
+            v.push((n, format!("S{}{}TD", rep('h', n), rep('e', c))));
+        }
+    }
+    let mut counts = vec![100usize, 128, 255, 256, 257, 1000, 1024];
+    if thorough {
+        counts.extend([512, 2048, 4096, 8192, 10_000]);
+    }
+    let ns: &[usize] = if thorough { &[1, 2, 3, 4, 8, 16] } else { &[1, 2, 4] };
+    for &n in ns {
+        let bn = rep('b', n);
+        let hn = rep('h', n);
+        for &c in &counts {
+            let e = rep('e', c);
+            let p = rep('p', c);
+            v.push((n, format!("S{}D", e)));
+            v.push((n, format!("S{}TD", e)));
+            v.push((n, format!("S{}wTD", e)));
+            v.push((n, format!("S{}W{}D", e, bn)));
+            v.push((n, format!("S{}{}{}wD", rep('e', c / 2), rep('p', c / 4), rep('e', c / 4))));
+            // every worker held, c tasks queued: released / dropped / stopped with the queue full
+            v.push((n, format!("S{}{}oWD", hn, e)));
+            v.push((n, format!("S{}{}D", hn, e)));
+            v.push((n, format!("S{}{}TD", hn, e)));
+            // bulk across a restart
+            v.push((n, format!("S{}TS{}D", e, e)));
+            v.push((n, format!("S{}{}TS{}oWD", hn, e, e)));
+            if c <= 1024 || n >= 4 {
+                // hundreds of panics: N usable workers afterwards
+                v.push((n, format!("S{}D", p)));
+                v.push((n, format!("S{}TD", p)));
+                v.push((n, format!("S{}W{}WTD", p, bn)));
+                v.push((n, format!("S{}TS{}W{}D", p, p, bn)));
+            }
+        }
+    }
+    // wide pools (the other blocks have N <= 4): every worker busy / panicking / held, also across a restart
+    let wide: &[usize] = if thorough { &[5, 6, 8, 16, 32, 64, 128] } else { &[5, 8, 16, 64] };
+    for &n in wide {
+        let bn = rep('b', n);
+        v.push((n, format!("S{}W{}D", rep('e', 2 * n), bn)));
+        v.push((n, format!("S{}W{}TD", rep('p', n), bn)));
+        v.push((n, format!("S{}{}oW{}D", rep('h', n), rep('e', n), bn)));
+        v.push((n, format!("S{}TS{}D", bn, bn)));
+        v.push((n, format!("S{}TSoWpW{}D", rep('x', n), bn)));
+        v.push((n, format!("S{}SoW{}TD", rep('x', n), bn)));
+    }
+    // very large: with the event log up to LOG_LIMIT tasks, without it beyond
+    let big: &[(usize, usize)] = if thorough {
+        &[(1, 5_000), (2, 12_000), (4, 16_384), (2, 65_536), (4, 100_000), (8, 262_144), (4, 1_000_000), (1, 1_048_576)]
+    } else {
+        &[(2, 4096), (4, 10_000), (4, 65_536), (2, 100_000)]
+    };
+    for &(n, c) in big {
+        let e = rep('e', c);
+        v.push((n, format!("S{}D", e)));
+        v.push((n, format!("S{}wTD", e)));
+        v.push((n, format!("S{}{}oWD", rep('h', n), e)));
+        if c >= 65_536 {
+            v.push((n, format!("S{}TS{}D", e, e)));
+        }
+    }
 }
 
 pub fn gen(out: &mut Out, thorough: bool, seed: u64) {
@@ -478,10 +991,107 @@ pub fn gen(out: &mut Out, thorough: bool, seed: u64) {
         }
     });
     let mut done = 0usize;
-    for (n, script, log, summary) in results.into_iter().flatten() {
+    // Verdicts that rest on time (the caller is not back, a wait was given up, workers have not exited yet, the child
+    // died) are CONFIRMED: the script is run again on its own, up to three times, now that nothing else runs here. The
+    // first repetition that fails again is what is reported; a failure that does not show again in three undisturbed
+    // runs is put down to the machine (counted in `suspicious_not_reproduced`) and the clean run is reported. A task
+    // that ran twice, or a log the model rejects, is a fact and is reported as it is.
+    let mut all: Vec<(usize, String, String, String)> = Vec::new();
+    let mut suspicious_n = 0usize;
+    let mut confirmed_n = 0usize;
+    let mut not_reproduced: Vec<String> = Vec::new();
+    let mut dropped = 0usize;
+    for r in results.into_iter().flatten() {
+        if !suspicious(r.0, &r.1, &r.3) {
+            all.push(r);
+            continue;
+        }
+        suspicious_n += 1;
+        let mut last: Option<(usize, String, String, String)> = None;
+        let mut confirmed = false;
+        // (after two confirmed failures the rest is taken as it is: the code is broken, not the machine)
+        let tries = if confirmed_n < 2 && suspicious_n <= 60 { 3 } else { 0 };
+        for attempt in 0..tries {
+            match run_alone(r.0, &r.1, seed ^ (suspicious_n as u64 * 8 + attempt)) {
+                Some(x) => {
+                    let bad = suspicious(x.0, &x.1, &x.3);
+                    last = Some(x);
+                    if bad {
+                        confirmed = true;
+                        break;
+                    }
+                }
+                None => {}
+            }
+        }
+        if tries == 0 {
+            if r.3 != "STARVED" {
+                all.push(r);
+            } else {
+                dropped += 1;
+                done += 1;
+            }
+        } else if confirmed {
+            confirmed_n += 1;
+            all.push(last.unwrap());
+        } else {
+            match last {
+                Some(x) => {
+                    if r.3 != "STARVED" {
+                        not_reproduced.push(format!("N={} {} ({})", r.0, r.1, r.3.chars().take(40).collect::<String>()));
+                    }
+                    all.push(x);
+                }
+                None => {
+                    dropped += 1;
+                    done += 1;
+                }
+            }
+        }
+    }
+    if suspicious_n > 0 {
+        out.extra.insert(
+            "time_dependent_verdicts_rerun".into(),
+            format!("{} runs looked wedged / late / starved and were repeated alone; not reproduced in 3 runs: {} [{}]; no undisturbed run possible: {}",
+                suspicious_n, not_reproduced.len(), not_reproduced.join("; "), dropped),
+        );
+    }
+    for (n, script, log, summary) in all {
         done += 1;
         let panics = panicking_ids(&script);
-        let npan = script.chars().filter(|c| matches!(c, 'p' | 'q' | 'r' | 's')).count();
+        let ops = expand(&script);
+        let npan = ops.iter().filter(|c| is_panicking(**c)).count();
+        let ntasks = ops.iter().filter(|c| is_task(**c)).count();
+        let starts = ops.iter().filter(|c| **c == 'S').count();
+        if starts >= 2 {
+            out.count(&format!("starts={}", if starts <= 5 { starts.to_string() } else if starts <= 10 { "6..10".into() } else if starts <= 100 { "11..100".into() } else { ">100".to_string() }));
+            out.count("outside_the_model:judged_by_summary_and_log_counts");
+            if script.contains("SS") || ops.windows(2).any(|w| w[1] == 'S' && w[0] != 'T' && w[0] != 'M' && w[0] != 'm') && !script.contains('T') {
+                out.count("started_again_without_stop");
+            }
+            // a held task submitted before a later start and released after it
+            let mut pending = false;
+            let mut across = false;
+            for c in &ops {
+                match c {
+                    'h' | 'x' => pending = true,
+                    'o' => pending = false,
+                    'S' if pending => across = true,
+                    _ => {}
+                }
+            }
+            if across {
+                out.count("task_running_across_restart");
+            }
+        }
+        if script.contains("TT") { out.count("stopped_twice"); }
+        if script.contains('h') || script.contains('x') { out.count("held_tasks"); }
+        if script.contains('W') { out.count("settle_incl_recovery"); }
+        for lim in [100usize, 1000, 10_000, 100_000, 1_000_000] {
+            if ntasks >= lim { out.count(&format!("tasks>={}", lim)); }
+        }
+        if npan >= 100 { out.count("panics>=100"); }
+        if log == "-" { out.count("log_omitted(summary_only)"); }
         if script.contains('M') { out.count("monitor_subscribed_to_pool_panics"); }
         if script.contains('q') || script.contains('r') { out.count("panic_with_message"); }
         if script.contains('s') { out.count("panic_with_non_string_payload"); }
@@ -510,7 +1120,7 @@ pub fn gen(out: &mut Out, thorough: bool, seed: u64) {
         if seen.values().any(|c| *c >= 2) {
             out.count("same_worker_id_respawned_twice");
         }
-        let nontrivial = script.contains('S') && script.chars().any(|c| matches!(c, 'e' | 'p' | 'q' | 'r' | 's' | 'b'));
+        let nontrivial = script.contains('S') && ntasks > 0;
         out.case(&["pool", &n.to_string(), &script, &panics, &log], &summary, nontrivial);
     }
     if done < jobs.len() {
@@ -519,5 +1129,5 @@ pub fn gen(out: &mut Out, thorough: bool, seed: u64) {
             format!("{} of {} scripts run: {} runs wedged, the rest was skipped", done, jobs.len(), wedges.load(Ordering::SeqCst)),
         );
     }
-    out.extra.insert("scripts".into(), format!("{} (exhaustive: N 1..4 x 0..{} executes x every panicking subset x stop/no stop)", jobs.len(), 6));
+    out.extra.insert("scripts".into(), format!("{} (exhaustive: N 1..4 x 0..{} executes x every panicking subset x stop/no stop; restart families R1-R4; large-count families)", jobs.len(), 6));
 }
